@@ -288,6 +288,14 @@ where
                     remote_needs,
                     mut metrics,
                 } => {
+                    // If we already sent `Done` instead of `PreSync` (nothing to send at that
+                    // point) we must not send anything else, even if the store changed in the
+                    // meantime: the remote does not expect further messages from us.
+                    let remote_needs = if sync_done_sent {
+                        LogRanges::default()
+                    } else {
+                        remote_needs
+                    };
                     let mut send_logs_len = remote_needs.len();
                     let span =
                         tracing::error_span!(parent: &state_machine_span, "sync", send_logs_len);
